@@ -325,6 +325,7 @@ def run(tier, replay=None):
     run_pair_coefficients(chk, F)
     run_bar_order(chk, F)
     run_transposed_u_undo(chk, F)
+    run_overlay_counter(chk, F)
     chk.assumptions += ['clang 14 parser; template patterns', 'U is stored transposed for Z2: a column addition on R '
                         'is mirrored by add_to with exchanged indices or by one pushed entry']
     return chk
@@ -545,3 +546,92 @@ def run_transposed_u_undo(chk, F):
                                        'gets a second entry in the same row' %
                                        (w[0]['name'], w[2], removed, '' if not ok else ' before the column is dropped')),
            key='E2|RU_matrix::remove_last|U-undo')
+
+
+# ------------------------------------------------------------------ E2n the overlay's index counter follows the matrix
+
+def _is_dec(x, name):
+    if x.get('k') == 'UnaryOperator' and x.get('op') == '--' and ir.show((x.get('c') or [{}])[0]) == name:
+        return True
+    if x.get('k') == 'CompoundAssignOperator' and x.get('op') == '-=' and ir.show((x.get('c') or [{}])[0]) == name:
+        return True
+    return False
+
+
+def run_overlay_counter(chk, F):
+    """E2n: with POSITION indexing the overlay numbers the columns itself: positionToIndex_[p] = nextIndex_++ assumes
+    that the underlying chain matrix gives the next inserted column that very index. Chain_matrix::_remove_last
+    gives the last index back (--nextIndex_) exactly in the configuration read from its own `if constexpr` guard;
+    on every path of the overlay's remove_last that removes the last column through matrix_.remove_last(), the
+    overlay's counter is decremented in exactly that configuration, and never otherwise."""
+    chain = [f for f in F.functions if f.get('clsname') == 'Chain_matrix' and f.get('inst') in (0, 2) and
+             f.get('body') is not None and f['name'] == '_remove_last']
+    over = [f for f in F.functions if f.get('clsname') == 'Position_to_index_overlay' and f.get('inst') in (0, 2) and
+            f.get('body') is not None and f['name'] == 'remove_last']
+    if len(chain) != 1 or len(over) != 1:
+        raise AnalysisBroken('C05: Chain_matrix::_remove_last / Position_to_index_overlay::remove_last not found')
+    chain, over = chain[0], over[0]
+    par = ir.parents(chain['body'])
+    decs = [x for x in ir.walk(chain['body']) if _is_dec(x, 'nextIndex_')]
+    where = '%s:%d' % (rel(over['file']), over['line'])
+    # configuration in which the chain matrix reuses the index: polarity of has_vine_update on the way to the decrement
+    reuse_when_vine = None      # None: never decremented ; False: decremented when vine is off ; 'always'
+    if decs:
+        cur = decs[0]
+        reuse_when_vine = 'always'
+        while id(cur) in par:
+            up = par[id(cur)]
+            if up.get('k') == 'IfStmt' and up.get('constexpr') and 'has_vine_update' in ir.show(up.get('cond')):
+                neg = ir.show(up['cond']).lstrip('(').startswith('!')
+                in_then = cur is up.get('then') or ir.contains(up.get('then'), lambda y: y is decs[0])
+                reuse_when_vine = (not neg) if in_then else neg
+            cur = up
+        if len(decs) > 1:
+            raise AnalysisBroken('C05: Chain_matrix::_remove_last decrements nextIndex_ at several places')
+
+    def cl(x):
+        if _is_dec(x, 'nextIndex_'):
+            return ['DEC']
+        if ir.is_call(x) and ir.call_name(x) == 'remove_last' and 'matrix_' in ir.show(x):
+            return ['RL']
+        if ir.is_call(x) and ir.call_name(x) == 'remove_maximal_cell' and 'matrix_' in ir.show(x):
+            return ['RMC']
+        return []
+    ps = paths.enumerate_paths(over, cl, loop_mode='01', keep_conds=True, cap=2000)
+    bad = None
+    n = 0
+    for p in ps:
+        if p.end == 'throw':
+            continue
+        tags = p.tags()
+        vine = None
+        for c, pol, cx in p.conds:
+            if isinstance(c, tuple) or not cx:
+                continue
+            t = ir.show(c)
+            if 'has_vine_update' in t:
+                vine = pol if not t.lstrip('(').startswith('!') else (not pol)
+        n += 1
+        if 'RL' in tags:
+            if reuse_when_vine is None:
+                exp = 0
+            elif reuse_when_vine == 'always':
+                exp = 1
+            elif vine is None:
+                raise AnalysisBroken('C05: the overlay removes through matrix_.remove_last() on a path that does not '
+                                     'decide has_vine_update')
+            else:
+                exp = 1 if vine == reuse_when_vine else 0
+        else:
+            exp = 0
+        if tags.count('DEC') != exp and bad is None:
+            bad = (tags, vine, exp)
+    chk.count('overlay removal paths', n)
+    chk.ob('E2n-overlay-counter', 'Position_to_index_overlay::remove_last decrements nextIndex_ exactly when the chain '
+           'matrix gives its last index back (%s)' % ('never' if reuse_when_vine is None else 'always' if
+                                                      reuse_when_vine == 'always' else 'has_vine_update == %s'
+                                                      % str(reuse_when_vine).lower()), where, bad is None,
+           '' if bad is None else 'a path with has_vine_update == %s performs %s and decrements nextIndex_ %d time(s), '
+           'expected %d: the next inserted position is mapped to an index the matrix does not use' %
+           (bad[1], [t for t in bad[0] if t != 'DEC'], bad[0].count('DEC'), bad[2]),
+           key='E2n|Position_to_index_overlay::remove_last|counter')
